@@ -13,6 +13,9 @@ import (
 
 var props = map[string]func(c *rep.Ctx){}
 
+// seqOut is where the shard's result goes (a watchdog that ends the shard early writes it there itself).
+var seqOut string
+
 func main() {
 	prop := flag.String("prop", "", "property id")
 	tier := flag.String("tier", "quick", "quick|thorough")
@@ -40,6 +43,7 @@ func main() {
 		pid = pid[:i]
 	}
 	c := rep.New(pid, "seq", *tier, *shard, *nshards, *seed, *deadline)
+	seqOut = *out
 	f(c)
 	if err := c.Write(*out); err != nil {
 		fmt.Fprintln(os.Stderr, err)
